@@ -48,6 +48,10 @@ CHECKS = {
    text="The static partition of root instructions in check_for_loopcarried_dep is verified on the real code, executed symbolically up to the creation of the workers, for ALL kernel lengths >= 50 and ALL worker counts >= 1: one slice per worker, slices consecutive, in order, pairwise disjoint, inside the kernel and covering every root exactly once (nonlinear integer VCs); _extend_path is verified to search, for each instruction of its slice, the paths from it to its second copy; order-insensitivity of the post-processing is a lemma. Equality of the real multi-process search with the sequential one is sampled by a bounded unit (worker counts 1,2,3,5,16,80; kernels of 50-66 lines) and by a partition probe of the real function for klen 50-130 x 9 worker counts.",
    note="A: Manager().list().extend atomic/lossless, workers terminate, int(a/b) = floor division below 2**53; real scheduling and byte-identical reports only sampled.",
    tech=TECH + " (nonlinear integer arithmetic); bounded runs with real processes"),
+ "C11": dict(cat="proof", ref="DESIGN.md section 4 C11",
+   text="find_marked_section is verified for line lists of unbounded length with a loop invariant over the scan position: under the property's precondition (one start marker followed by one end marker) the result is exactly (first line after the start marker incl. its .byte lines, line of the end marker), and a line that differs in value, register, mnemonic or follow-up directive is not a marker; match_bytes (bytes on one or several .byte lines) is verified on <= 3 lines x 4 parameters with symbolic bytes; the marker constants of both ISAs equal the documented ones; reduce_to_section's slicing incl. the 'no marker -> whole file' case is verified; transparency of non-instruction lines is carried by the C01/C03 contract instances. --lines expansion, decoys and the identity of the three input variants / noise insertion are checked end-to-end on the real inspect by a bounded unit.",
+   note="Precondition = the property's input space (exactly one start and one end marker, mov-like lines have two operands); match_bytes structure-bounded; get_line_range and end-to-end clauses bounded.",
+   tech=TECH + "; bounded end-to-end comparison of input variants"),
 }
 NA = {
  "C17": "quantifies over file-system histories, crash points of cache writes and process races; no function contract decides it (needs fault enumeration / a file-system model)",
